@@ -124,18 +124,6 @@ def getLineChildren (lines : Array LineA) : Std.HashMap (Nat × Nat) LineChildre
 
 /-! ### lengths and penalties -/
 
-/-- `str::lines()` on the bytes of a text: split after every `\n`; a line loses its `\n` and then one `\r` -/
-def strLinesGo (cur : Bytes) : Bytes → List Bytes
-  | [] => if cur.isEmpty then [] else [cur.reverse]
-  | 0x0A :: r =>
-    let line := match cur with
-      | 0x0D :: c => c
-      | c => c
-    line.reverse :: strLinesGo [] r
-  | b :: r => strLinesGo (b :: cur) r
-
-def strLines (s : Bytes) : List Bytes := strLinesGo [] s
-
 /-- `get_last_child_line_len` -/
 def getLastChildLineLen (childSolutions : List (Nat × FormattingSolution)) : Option Nat :=
   match childSolutions.getLast? with
@@ -150,14 +138,7 @@ def Olf.getTokenLineLength (O : Olf) (startingWs : LineWhitespace) (prevDecision
     (tokenIndex : Option Nat) : Nat :=
   let multiline : Option Nat :=
     match tokenIndex.bind (fun index => O.formattedTokens[index]?) with
-    | some t =>
-      match t.kind with
-      | .tTextLiteral .tMultiLine | .tComment .cMultilineBlock =>
-        -- multiline tokens necessarily have a break in them
-        match ((strLines t.content).drop 1).getLast? with
-        | some lastLine => some lastLine.length
-        | none => none
-      | _ => none
+    | some t => t.lastLine
     | none => none
   match multiline with
   | some l => l
@@ -167,8 +148,8 @@ def Olf.getTokenLineLength (O : Olf) (startingWs : LineWhitespace) (prevDecision
       let parent := prevDecision.value
       (getLastChildLineLen parent.childSolutions).getD parent.lastLineLength + tokenLength.spacesBefore + tokenLength.content
     | .brk continuations, some tokenLength =>
-      (startingWs.add { indentations := 0, continuations := continuations }).len O.reconSettings + tokenLength.content
-    | _, none => startingWs.len O.reconSettings
+      (startingWs.add { indentations := 0, continuations := continuations }).len O.cfg + tokenLength.content
+    | _, none => startingWs.len O.cfg
 
 /-- `PenaltyDecision` + `get_decision_penalty` -/
 def Olf.getDecisionPenalty (O : Olf) (rawDecision : RawDecision) (lineLength lineIndex : Nat) (line : LineA)
@@ -507,7 +488,7 @@ def Olf.findOptimalSolutionWith (O : Olf) (solveChild : Solver) (cache : ChildLi
       match firstTokenDecision with
       | .brk =>
         if invariants == some .mustNotBreak then (.cont, .mustNotBreak, spacesBefore + contentLen, true)
-        else (.brk 0, .mustBreak, startingWs.len O.reconSettings + contentLen, true)
+        else (.brk 0, .mustBreak, startingWs.len O.cfg + contentLen, true)
       | .cont lineLength canBreak => (.cont, .mustNotBreak, lineLength + spacesBefore + contentLen, canBreak)
     if (invariants == some .mustNotBreak && newLine.toRaw == .brk) ||
         (invariants == some .mustBreak && newLine.toRaw == .cont) then
@@ -565,7 +546,7 @@ def Olf.formatLine (O : Olf) (cache : ChildLineCache) (lineIdx : Nat) : Option F
     calls: settings, `token_types`, `token_lengths` (spaces and content lengths as they are when the stage starts),
     the lines, `line_children`, and the `child_line_cache` (which lives as long as the stage) -/
 structure SearchState where
-  cfg : Config
+  cfg : SearchCfg
   lines : Array LineA
   lineChildren : Std.HashMap (Nat × Nat) LineChildren
   tokenTypes : Array TokenType
@@ -575,7 +556,7 @@ structure SearchState where
 /-- the set-up of `OptimisingLineFormatter::format` (`get_line_children`, `token_types`, `token_lengths`, empty cache) -/
 def searchInit (cfg : Config) (lines : List Line) (ft : FT) : SearchState :=
   let linesA := (lines.map Line.toA).toArray
-  { cfg := cfg, lines := linesA, lineChildren := getLineChildren linesA,
+  { cfg := cfg.searchCfg, lines := linesA, lineChildren := getLineChildren linesA,
     tokenTypes := (ft.map fun t => t.tok.kind).toArray,
     tokenLengths := (ft.map fun t => ({ spacesBefore := t.fmt.sp, content := t.tok.content.length } : TokenLength)).toArray,
     childLineCache := {} }
@@ -585,7 +566,7 @@ def searchInit (cfg : Config) (lines : List Line) (ft : FT) : SearchState :=
     asm-instruction line) and the state with the updated cache -/
 def searchSolveV (st : SearchState) (view : List SVTok) (lineIdx : Nat) : Option Sol × SearchState :=
   let O : Olf :=
-    { cfg := st.cfg, reconSettings := st.cfg.settings, iterationMax := 20000, formattedTokens := view.toArray,
+    { cfg := st.cfg, iterationMax := 20000, formattedTokens := view.toArray,
       lines := st.lines, lineChildren := st.lineChildren, tokenTypes := st.tokenTypes, tokenLengths := st.tokenLengths }
   let (sol, cache) := O.formatLine st.childLineCache lineIdx
   (sol.map (·.toSol (st.lines.size + 1)), { st with childLineCache := cache })
